@@ -560,6 +560,128 @@ func main() {
 		}
 		doBlock(n, p, true, true)
 	}
+	// ---- stateful filter histories: ONE Filter object lives through a sequence of relayed
+	// transactions (MatchTxAndUpdate, spenders offered before their funding transaction as
+	// well as after), element additions and NewMerkleBlock calls.  Oracle: the merkle block
+	// served from the long-lived filter reveals exactly what a FRESH filter holding the same
+	// bits matches when fed the block's transactions in block order.
+	{
+		histories, hblocks := 0, 0
+		rndHash168 := func() common.Uint168 { var w common.Uint168; copy(w[:], rng.Bytes(21)); return w }
+		mkPay := func(in *common2.OutPoint, to ...common.Uint168) interfaces.Transaction {
+			var outs []*common2.Output
+			for _, w := range to {
+				outs = append(outs, &common2.Output{Value: common.Fixed64(1 + rng.Intn(1000)), ProgramHash: w})
+			}
+			return functions.CreateTransaction(common2.TxVersionDefault, common2.TransferAsset, 0, &payload.TransferAsset{},
+				[]*common2.Attribute{}, []*common2.Input{{Previous: *in, Sequence: uint32(rng.U64())}}, outs, 0, nil)
+		}
+		rndOut := func() *common2.OutPoint {
+			var h common.Uint256
+			copy(h[:], rng.Bytes(32))
+			return common2.NewOutPoint(h, uint16(rng.Intn(3)))
+		}
+		for hi := 0; hi < run.N(150, 3000); hi++ {
+			histories++
+			F := bloom.NewFilter(40, uint32(rng.U64()%0xfffffff0), 1e-9)
+			var watched []common.Uint168
+			for k := 0; k < 1+rng.Intn(3); k++ {
+				w := rndHash168()
+				watched = append(watched, w)
+				F.Add(w[:])
+			}
+			// chains: fund (pays a watched or a foreign address) -> spend -> spend of the spend; plus bystanders
+			var pool []interfaces.Transaction
+			var chains [][]interfaces.Transaction
+			for c := 0; c < 1+rng.Intn(3); c++ {
+				to := rndHash168()
+				if rng.Chance(80) {
+					to = watched[rng.Intn(len(watched))]
+				}
+				a := mkPay(rndOut(), rndHash168(), to)
+				b := mkPay(common2.NewOutPoint(a.Hash(), 1), rndHash168())
+				cc := mkPay(common2.NewOutPoint(b.Hash(), 0), rndHash168())
+				chains = append(chains, []interfaces.Transaction{a, b, cc})
+				pool = append(pool, a, b, cc)
+			}
+			for k := 0; k < rng.Intn(4); k++ {
+				pool = append(pool, mkPay(rndOut(), rndHash168()))
+			}
+			var trace []string
+			nops := 2 + rng.Intn(6)
+			for op := 0; op < nops; op++ {
+				switch {
+				case op < nops-1 && rng.Chance(55): // relay: spenders first, more often than not
+					ch := chains[rng.Intn(len(chains))]
+					t := ch[rng.Intn(3)]
+					if rng.Chance(60) {
+						t = ch[1+rng.Intn(2)]
+					}
+					if rng.Chance(15) {
+						t = pool[rng.Intn(len(pool))]
+					}
+					r := F.MatchTxAndUpdate(t)
+					trace = append(trace, fmt.Sprintf("relay(%s)=%v", t.Hash().String()[:6], r))
+				case op < nops-1 && rng.Chance(10):
+					w := rndHash168()
+					F.Add(w[:])
+					trace = append(trace, "add")
+				default: // a block: a random selection of the pool, dependency order or shuffled
+					var txs []interfaces.Transaction
+					for _, t := range pool {
+						if rng.Chance(75) {
+							txs = append(txs, t)
+						}
+					}
+					if len(txs) == 0 {
+						txs = append(txs, pool[0])
+					}
+					if rng.Chance(30) {
+						for i := len(txs) - 1; i > 0; i-- {
+							j := rng.Intn(i + 1)
+							txs[i], txs[j] = txs[j], txs[i]
+						}
+					}
+					ids := make([]common.Uint256, len(txs))
+					for i, t := range txs {
+						ids[i] = t.Hash()
+					}
+					root, _ := refRoot(ids, nil)
+					blk := &types.Block{Header: common2.Header{MerkleRoot: root}, Transactions: txs}
+					// a fresh filter with the same bits, fed in block order
+					m0 := F.GetFilterLoadMsg()
+					fresh := bloom.LoadFilter(&msg.FilterLoad{Filter: append([]byte{}, m0.Filter...), HashFuncs: m0.HashFuncs,
+						Tweak: m0.Tweak, Flags: m0.Flags, TxTypes: m0.TxTypes})
+					var want []common.Uint256
+					var wantIdx []uint32
+					for i, t := range txs {
+						if fresh.MatchTxAndUpdate(t) {
+							want = append(want, ids[i])
+							wantIdx = append(wantIdx, uint32(i))
+						}
+					}
+					var mb *msg.MerkleBlock
+					var midx []uint32
+					inp := map[string]interface{}{"history": trace, "block_txs": len(txs), "fresh_filter_matches": wantIdx}
+					if p, v := lib.Recover(func() { mb, midx = bloom.NewMerkleBlock(blk, F) }); p {
+						st.Fail("NewMerkleBlock:panic", fmt.Sprint(v), inp)
+						continue
+					}
+					res, got := check(cloneMB(mb, root))
+					hblocks++
+					st.Count(fmt.Sprintf("hist:%d:%d:%v", hi, op, wantIdx), len(wantIdx) > 0, "filter-history")
+					inp["served_indexes"] = midx
+					if res != 1 || fmt.Sprint(got) != fmt.Sprint(want) || fmt.Sprint(midx) != fmt.Sprint(wantIdx) {
+						st.Fail("NewMerkleBlock:stateful-filter", "a long-lived filter serves a merkle block that does not reveal exactly what a fresh filter with the same bits matches", inp)
+					}
+					trace = append(trace, fmt.Sprintf("block(%d txs)->%v", len(txs), midx))
+				}
+			}
+		}
+		st.Extra["filter_histories"] = histories
+		st.Extra["filter_history_blocks"] = hblocks
+	}
+
 	// ---- large blocks: more than 64 transactions, counts around the multiples of 64 (and of
 	// the smaller powers of two), sparse patterns: a single match at every position, matches
 	// only in the trailing partial group of 2..128 leaves, an early match plus a tail match.
